@@ -167,7 +167,7 @@ let parse_call (c : string) : (n * bool) * call =
      | "theqref" -> CTheQuestionRef | "skipq" -> CSkipQuestions | "marker" -> CMarker | "href" -> CHeaderRef
      | "hdrH" -> CHeaderN Heap | "hdrI" -> CHeaderN Inline
      | "skipd" -> CSkipData (num 1) | "bytes" -> CDataBytes (num 1) | "data" -> CData (num 1, num 2)
-     | "opt" -> COpt (num 1) | "bytesat" -> CBytesAt (num 1) | "dataat" -> CDataAt (num 1, num 2)
+     | "opt" -> COpt (num 1) | "optorskip" -> COptOrSkip (num 1) | "bytesat" -> CBytesAt (num 1) | "dataat" -> CDataAt (num 1, num 2)
      | "nrefat" -> CNameRefAt (num 1) | "nreq" -> CNrefEq (num 1, num 2) | "nrname" -> CNrefName (nk p.(1), num 2)
      | "nrlabels" -> CNrefLabels (num 1)
      | x -> failwith ("bad call " ^ x))
@@ -180,6 +180,31 @@ let op_script (a : string array) : string =
   let cs = List.filter (fun s -> s <> "") (String.split_on_char ',' calls) in
   let rs = run_script (world_init msgs) (List.map parse_call cs) in
   String.concat ";" (List.map pres_sobs rs)
+
+let op_iter (msg : byte list) : string =
+  match iter_new msg with
+  | Err e -> "new=err:" ^ perr e
+  | UB -> "UB" | Panic -> "PANIC(overflow)" | DebugAssert -> "PANIC(debug_assert)" | OutOfFuel -> "OUTOFFUEL"
+  | Ok (h, aoff) ->
+    let hs = pobs (OHeader h) in
+    let (qs, qe) = iter_questions msg h in
+    let first = (match qs, qe with
+        | q :: _, _ -> "ok:" ^ pobs q
+        | [], Some r -> pres r (fun _ -> "")
+        | [], None -> "err:BadQuestionsCount(0)") in
+    let qend = (match qe with None -> "end" | Some r -> (abn r; pres r (fun _ -> ""))) in
+    let rsr = iter_records msg h aoff in abn rsr;
+    let (items, rend) = (match rsr with Ok (l, e) -> (l, e) | _ -> ([], None)) in
+    Printf.sprintf "new=ok:%s Q=%s QS=[%s]%s RS=[%s]%s" hs first
+      (String.concat "" (List.map (fun q -> pobs q ^ ",") qs)) qend
+      (String.concat "" (List.map (fun r -> Printf.sprintf "R(%d,%s,%d,%d,%s,%s)," (ni r.rr_section) (hex r.rr_name)
+                                     (ni r.rr_class) (ni r.rr_type) (nstr r.rr_ttl) (prdata r.rr_data)) items))
+      (match rend with None -> "end" | Some e -> "err:" ^ perr e)
+
+let op_rrset (ty : int) (msg : byte list) : string =
+  let r = from_msg msg (n_of_int ty) in abn r;
+  pres r (fun rs -> Printf.sprintf "RS(%s,%d,%s,[%s])" (hex rs.rs_name) (ni rs.rs_class) (nstr rs.rs_ttl)
+             (String.concat "," (List.map prdata rs.rs_data)))
 
 (* spec side of the names stream: the code-blind RFC expansion (Spec/WireName.v) *)
 let spec_name_line (msg : byte list) (p : int) : string =
@@ -196,6 +221,8 @@ let dispatch (op : string) (a : string array) : string =
   match op with
   | "name" -> op_name (unhex a.(0)) (int_of_string a.(1))
   | "script" -> op_script a
+  | "iter" -> op_iter (unhex a.(0))
+  | "rrset" -> op_rrset (int_of_string a.(0)) (unhex a.(1))
   | _ -> "BADOP(" ^ op ^ ")"
 
 let spec (op : string) (a : string array) : string option =
